@@ -80,3 +80,11 @@ void harness(void) {
   __CPROVER_assert(!(r != NULL && p != NULL), "COVER grow existing block");
 }
 #endif
+#if defined(H_HEADER_SIZE)
+size_t _cbor_encoded_header_size(uint64_t size);
+void harness(void) {
+  uint64_t in_a = nondet_size();
+  size_t r = _cbor_encoded_header_size(in_a);
+  __CPROVER_assert(r != 9, "COVER 8-byte argument");
+}
+#endif
